@@ -10,22 +10,76 @@ TRUST = ("Decides the named structural clauses (necessary conditions of the prop
          "lsp-server) are outside the analysed set.")
 
 CLAIMED = {
-    "C04": ("custom rustc_private driver facts + who-may-call, match-arm x field-table join, insert/remove edge pairing, MIR dominance (must-pass-through)",
+    "C01": ("match-arm coverage tables (reader / stage-to-stage forwarding / sibling-walk reachability) joined with ADT field tables; sibling-printer agreement",
+            "A construct is lost for *every* document containing it iff some stage of the five-stage pipeline has no forwarding arm for it, drops a "
+            "payload field, or stops walking siblings; those are shape facts decided per enum variant. Word-for-word preservation is not decided.", "§4 C01"),
+    "C03": ("call-graph reachability + audited panic-site inventory (MIR asserts / panicking calls / unwrap-expect with local guard discharge) + recursion (SCC) inventory",
+            "Over-approximate 'cannot panic / cannot diverge': every panicking construct and every recursion cycle reachable from the input-facing roots "
+            "is either discharged by an enumerated local guard idiom or listed in an audited table (invariant / guarded / finding); a new reachable "
+            "site is reported. Complexity and dependency internals are not decided.", "§4 C03"),
+    "C04": ("who-may-call over resolved callees, match-arm x field-table join, insert/remove edge pairing, MIR dominance (must-pass-through)",
             "Static rules over the compiler's typed HIR/MIR for the five kinds of state that survive an update (tombstones, merge-only "
             "index, per-key caches, Database.paths/content, arena ids): raw index reads outside the filtering wrappers, holes in the "
             "index walker, caches without a remove edge, the update protocol's order/dominance, push-only arena. Each is a necessary "
             "condition tied to one kind of stale state; equality of all answers with a fresh build is not decided.", "§4 C04"),
+    "C05": ("index-walker arm table + argument-provenance rule for key construction (who-may-call with provenance) + sibling agreement on the internal/external decision",
+            "Backlinks are wrong for every library containing the construct when the walker skips a node kind, when a link url is turned "
+            "into a key without the linking note's directory, when reader/graph/writer disagree on what a reference is, or when a handler "
+            "reads the wrong reference kind: all four are decided from the code's shape. Set equality with an independent scan is not decided.", "§4 C05"),
+    "C06": ("match-arm classification (kind -> text class) with sibling agreement across three sites + positional provenance of rebuilt links",
+            "Which text a link gets is chosen per link kind at three sites, and destinations are rebuilt at three sites; the rules decide that the "
+            "three kind tables agree and that url/title/kind are positional copies (never computed), that the extension is appended only for "
+            "references, and that the title is the first heading. Final link texts for every library are not decided.", "§4 C06"),
+    "C07": ("constructor-correspondence chain (ordered/bullet) across 8 sites + argument classes of the recursive heading-level walk",
+            "Thin: list kind is carried by a chain of same-shaped match arms (a crossed pair compiles), and heading level = nesting depth + 1 "
+            "is visible as the argument class {same, +1, reset 0} of each recursive projector call. The splitter's range arithmetic is not decided.", "§4 C07"),
+    "C08": ("MIR dominance of the taken-name guard + provenance of affected set / new key + match-arm x field-table join for change_key",
+            "Rename is wrong for every library with the construct when the guard does not dominate the edit, when a referrer kind is missing from "
+            "the affected set, when a node kind holding links is not rewritten, or when two derivations of the new key differ.", "§4 C08"),
+    "C09": ("provenance of created keys (fresh-name source) + tree-rewrite shape rules (filter-one / insert-one) + render-directory rule",
+            "Thin: every created/extracted key comes from random_key(parent of the source), whose accepting branch tests freshness of the same "
+            "candidate; extract/inline rewrites remove exactly the target and insert exactly one replacement. Conservation of text is not decided.", "§4 C09"),
+    "C10": ("finite arm->constructor map (involution check) + guarded-rewrite shape of the tree transformers",
+            "Thin: change_list_type's arm map composed with itself is the identity; rewrites are guarded by id_eq(target) with map_children on the "
+            "other edge and map_children is order/length preserving. Markdown-level invertibility is not decided.", "§4 C10"),
     "C11": ("ownership/effect rule over typed HIR (fallible exclusivity probe on thread-shared state) + call-graph panic inventory + who-may-construct",
             "The property fails for a schedule iff the notification path can observe other owners of the server state and then drop the "
             "message; that is visible in the code's shape: a fallible probe (Arc::get_mut ...) on a value whose clone is moved into a "
             "spawned worker, panics below on_notification (caught and dropped by Router::run), or a second copy of the state.", "§4 C11"),
+    "C12": ("MIR must-pass-through (every path of the dispatcher to return passes exactly one respond) + unwind-guard presence + dispatch-arm agreement + panic inventory outside the guard",
+            "Exactly-one-response is a path property of the dispatcher's CFG; 'a worker panic becomes an error response' is the presence of a "
+            "catch_unwind whose Err edge reaches respond; sibling dispatch arms must share the deserialize->handle->serialize shape.", "§4 C12"),
+    "C13": ("provenance rule for the line table (must derive from terminator byte offsets) + unit discipline at the LSP boundary (who-may-construct Position) + line plumbing provenance",
+            "Positions are wrong for every CRLF / non-ASCII document when line starts are derived from lines()+1 or when byte columns cross the "
+            "LSP boundary without a UTF-16 conversion; both are shape facts. Column arithmetic of individual spans is not decided.", "§4 C13"),
+    "C14": ("who-may-call with argument classification (repeated-pattern trim APIs on path/url/key strings) + sibling agreement of url constructors + decode/encode pairing",
+            "trim_*_matches with a multi-char pattern strips all repetitions (a.md.md -> a); url->key must decode what key->url encodes; the url "
+            "constructors must agree. Behaviour of the url crate for every file name is not decided.", "§4 C14"),
+    "C15": ("render-directory provenance rule (every produced text for key K is relativised against K.parent())",
+            "Thin: the one shape fact behind the law - each site that renders text for a note passes that note's own directory. The path algebra "
+            "law of relative-path is not decided.", "§4 C15"),
+    "C16": ("hash-order taint analysis (interprocedural fixpoint over typed HIR) + rayon chain discipline + confinement of explicit nondeterminism (who-may-call)",
+            "Nondeterminism has three sources in this code base (hash-ordered iteration, rayon, explicit randomness/fs order), all visible as calls; "
+            "every source's fate is computed and must be an order-insensitive sink or an audited entry. Near-complete for the observables named.", "§4 C16"),
+    "C17": ("classification of recursive calls (structural vs cross-note by pointer provenance) + guarded strictly-decreasing counter rule + dead-alternative who-may-call",
+            "Termination on cyclic reference graphs holds iff every cross-note recursive step passes depth-c (c>=1) under a positive-depth guard; "
+            "that is decided on the recursive calls of Tree::squash_from_pointer. The expansion equation is not decided.", "§4 C17"),
+    "C18": ("typestate of the visited set on the statement order of paths_for_node + arm table + comparator operand provenance + chain shape (sort before take(100))",
+            "The cycle guard, the two step kinds, the tombstone filter, the documented search order/limit and the name rendering are shape facts; "
+            "completeness/soundness of the listing for every library is not decided.", "§4 C18"),
+    "C19": ("who-may-call over mutating std::fs APIs + write-then-rename must-pass-through + reader/writer suffix agreement + error propagation",
+            "A damaged file is possible for every write failure when the final path is written in place; nothing else is touched iff no other fs "
+            "mutator is reachable from normalize. OS failure semantics are trusted.", "§4 C19"),
+    "C20": ("who-may-call (linking primitives), argument provenance at every node construction, accessor x field-table agreement, statement-order rule for tombstoning",
+            "Forest well-formedness is maintained by very little code (accessors, five linking fns, arena, privacy); each syntactic premise of "
+            "the inductive step is decided. The induction over histories is not.", "§4 C20"),
 }
 
 NOT_APPLICABLE = {
     "C02": "Fixpoint of formatting is a relation between the writer's emitted bytes and pulldown-cmark's grammar on those bytes (escaping, lazy continuation, tight/loose lists, marker widths): no dataflow/typestate/exhaustiveness rule over iwe's source bounds it, and pinning today's literals would be a frozen-fragment proxy. Its only structural ingredient (determinism) is decided under C16.",
 }
 
-READY = {"C04"}
+READY = {"C04", "C05", "C06", "C16", "C17", "C18", "C20"}
 
 PENDING = "rules for this property are being built in this session (see DESIGN.md §4); not claimed until the check exists"
 
